@@ -549,6 +549,7 @@ EXPECTED_TAGS = {
     'text-decoration': ['union', 'pass-through', 'text_decoration_line', 'text_decoration_color'],
     'attachment-dates': ['from-clock', 'reproducible', 'file', 'url'],
     'svg-draw': ['cycle', 'acyclic', 'fails', 'no-failure'],
+    'image-docs': ['shared-url', 'disjoint', 'mixed-options', 'same-options'],
     'render-state': ['renders1', 'renders2', 'renders3', 'renders4', 'font-faces', 'caller-cache', 'folder-cache',
                      'raw-sheet'],
     'history (validation)': ['process-vs-process', 'same-html-object', 'write-twice', 'snapshot', 'cache-dict',
@@ -615,6 +616,88 @@ def section_images(run, world):
         sec.add(line, out, meta={'resources': resources, 'calls': calls, 'disk': use_disk},
                 nontrivial=len(set(keys)) < len(keys),
                 tags=['disk' if use_disk else 'dict'] + image_branch_tags(world, resources, calls, values, entries))
+
+
+def css_orientation(orientation):
+    if isinstance(orientation, str):
+        return orientation
+    angle, flip = orientation
+    return 'flip' if (angle, flip) == (0, True) else f'{angle}deg' + (' flip' if flip else '')
+
+
+def run_image_docs(world, resources, documents):
+    """Real HTML.render of a sequence of documents sharing one image cache, with a recording fetcher -> per document
+    the image URLs fetched during its render and what each of its requests got (read from the cache afterwards)."""
+    from weasyprint import DEFAULT_OPTIONS, HTML
+    from weasyprint.images import RasterImage, SVGImage
+    log = []
+    fetcher = world.fetcher(resources, log)
+    cache = {}
+    out = []
+    for options, elements in documents:
+        parts = []
+        for tag, url, forced, orientation in elements:
+            style = f'image-orientation:{css_orientation(orientation)}'
+            if tag == 'img':
+                parts.append(f'<img src="{url}" alt="a" style="{style}">')
+            elif tag == 'embed':
+                parts.append(f'<embed src="{url}" type="{forced}" style="{style}">')
+            else:
+                parts.append(f'<object data="{url}" type="{forced}" style="{style}">f</object>')
+        source = '<style>@page{size:300px}</style><p>' + ' '.join(parts) + '</p>'
+        start = len(log)
+        try:
+            HTML(string=source, url_fetcher=fetcher, base_url='http://t/').render(cache=cache, **options)
+        except Exception as exc:  # noqa: BLE001
+            out.append(f'err:{type(exc).__name__}')
+            continue
+        kinds = []
+        full = dict(DEFAULT_OPTIONS)
+        full.update(options)
+        for tag, url, forced, orientation in elements:
+            key = image_key((url, forced, orientation, full))
+            if key not in cache:
+                kinds.append('missing')
+                continue
+            image = cache[key]
+            kinds.append('none' if image is None else 'svg' if isinstance(image, SVGImage) else
+                         image.format if isinstance(image, RasterImage) else f'?{type(image).__name__}')
+        out.append(';'.join(url for url in log[start:] if url.startswith('http://t/')) + ' => ' + ';'.join(kinds))
+    return ' | '.join(out)
+
+
+def section_image_docs(run, world):
+    sec = run.section(
+        'image-docs',
+        'real HTML.render of sequences of 1..4 documents (1..4 <img> / <embed type> / <object type> each, random '
+        'image-orientation) sharing one cache dict, with image options that differ from render to render and a '
+        'recording memory fetcher, vs Model/ImageCache.runDocs; compared per document: the URLs fetched during its '
+        'render, and what each element got; non-trivial = a later document asks for a URL an earlier one asked for')
+    for _ in range(run.n(40, 500)):
+        resources = [(url, ('raises',) if descriptor[0] == 'malformed' else descriptor)
+                     for url, descriptor in world.gen_resources(run.rng)]
+        urls = [url for url, _ in resources] + ['http://t/unknown']
+        pool = [gen_image_options(run.rng) for _ in range(run.rng.randrange(1, 3))]
+        documents = []
+        for _ in range(run.rng.randrange(1, 5)):
+            elements = []
+            for _ in range(run.rng.randrange(1, 5)):
+                tag = run.rng.choice(['img', 'img', 'embed', 'object'])
+                forced = '' if tag == 'img' else run.rng.choice(FORCED)
+                elements.append((tag, run.rng.choice(urls), forced, run.rng.choice(ORIENTATIONS)))
+            documents.append((run.rng.choice(pool), elements))
+        out = docs.outcome(lambda: run_image_docs(world, resources, documents))
+        wire = [[[url, forced or '-', list(o) if isinstance(o, tuple) else o, wire_image_options(options)]
+                 for _, url, forced, o in elements] for options, elements in documents]
+        seen, repeated = set(), False
+        for _, elements in documents:
+            here = {url for _, url, _, _ in elements}
+            repeated = repeated or bool(here & seen)
+            seen |= here
+        sec.add(sx.line('imgdocs', world.wire_resources(resources), wire), out,
+                meta={'resources': resources, 'documents': documents}, nontrivial=repeated,
+                tags=[f'documents{len(documents)}', 'shared-url' if repeated else 'disjoint',
+                      'mixed-options' if len(pool) > 1 else 'same-options'])
 
 
 class _Obj:
@@ -935,12 +1018,13 @@ def section_attachment_dates(run):
 
 # ---------------------------------------------------------------------------------------------- SVG re-entrancy
 
-def run_svg_draw(root, refs, fails):
+def run_svg_draw(root, refs, fails, depth_out=None):
     """Real SVGImage objects whose `_svg.draw` draws other SVGImage objects (as <image href> does) and may raise ->
     the images whose drawing was entered, in order, and the images whose `_drawing` flag is still up afterwards."""
     from weasyprint.images import SVGImage
     entered = []
     images = []
+    nesting = [0, 0]          # current, maximal number of drawings inside one another
 
     class Drawing:
         def __init__(self, number):
@@ -948,12 +1032,17 @@ def run_svg_draw(root, refs, fails):
 
         def draw(self, *args, **kwargs):
             entered.append(str(self.number))
-            if len(entered) > 500:
-                raise RecursionError('unbounded nesting')
-            for other in refs[self.number]:
-                images[other].draw(None, 1, 1, 'auto')
-            if fails[self.number]:
-                raise ValueError('drawing failed')
+            nesting[0] += 1
+            nesting[1] = max(nesting)
+            try:
+                if len(entered) > 500:
+                    raise RecursionError('unbounded nesting')
+                for other in refs[self.number]:
+                    images[other].draw(None, 1, 1, 'auto')
+                if fails[self.number]:
+                    raise ValueError('drawing failed')
+            finally:
+                nesting[0] -= 1
     for number in range(len(refs)):
         image = SVGImage.__new__(SVGImage)
         image.__dict__.update(_svg=Drawing(number), _base_url=f'img{number}', _url_fetcher=None, _context=None,
@@ -961,6 +1050,8 @@ def run_svg_draw(root, refs, fails):
         images.append(image)
     images[root].draw(None, 1, 1, 'auto')
     flagged = [str(n) for n, image in enumerate(images) if image._drawing]
+    if depth_out is not None:
+        depth_out.append(nesting[1])
     return ' '.join(entered) + ' | ' + ' '.join(flagged)
 
 
@@ -2256,7 +2347,7 @@ class C19(PropCheck):
     modules = ('WpModel.Props.C19', 'WpModel.Props.C19Purity', 'WpModel.Props.C19State', 'WpModel.Witness.C19',
                'WpModel.Props.C19Pm2', 'WpModel.Props.C19Key', 'WpModel.Props.C19Names', 'WpModel.Props.C19Cascade',
                'WpModel.Props.C19Memo', 'WpModel.Props.C19Attach',
-               'WpModel.Props.C19Svg')
+               'WpModel.Props.C19Svg', 'WpModel.Props.C19Docs')
     trusted_base = (
         'modelled, not verified: generate_pdf / add_links / make_bookmark_tree coordinates, Document.copy, '
         'resolve_links, get_image_from_uri + RasterImage cache writes, write_pdf sinks, the allocation skeleton of '
@@ -2296,6 +2387,7 @@ class C19(PropCheck):
         timed('copy', section_copy, run, factory, rendered)
         timed('synthetic', section_synthetic, run, factory)
         timed('images', section_images, run, ImageWorld())
+        timed('image-docs', section_image_docs, run, ImageWorld())
         timed('disk-cache', section_disk_cache, run)
         timed('write-state', section_write_state, run, factory, ImageWorld())
         timed('sinks', section_sinks, run)
@@ -2327,8 +2419,27 @@ class C19(PropCheck):
             return self._judge_sinks(d)
         if section == 'render-state':
             return self._judge_render_state(d)
+        if section == 'image-docs':
+            resources = [(u, tuple(r)) for u, r in meta['resources']]
+            documents = [(dict(o), [(t, u, f, tuple(x) if isinstance(x, list) else x) for t, u, f, x in els])
+                         for o, els in meta['documents']]
+            together = run_image_docs(ImageWorld(), resources, documents).split(' | ')
+            for index, document in enumerate(documents):
+                alone = run_image_docs(ImageWorld(), resources, [document])
+                got = together[index].split(' => ')[-1]
+                if got != alone.split(' => ')[-1]:
+                    return (f'document {index} of the sequence gets the images {got} with the cache filled by the '
+                            f'documents before it, and {alone.split(" => ")[-1]} alone on a cold cache '
+                            f'(elements {document[1]}, options {document[0]})')
+            return None
         if section == 'svg-draw':
-            out = run_svg_draw(meta['root'], meta['refs'], meta['fails'])
+            depth = []
+            out = run_svg_draw(meta['root'], meta['refs'], meta['fails'], depth)
+            if depth and depth[0] > len(meta['refs']):
+                return (f'SVGImage.draw of image {meta["root"]} (references {meta["refs"]}) nests {depth[0]} drawings '
+                        f'inside one another with {len(meta["refs"])} images: an image is drawn inside its own drawing '
+                        '(unbounded recursion, each RecursionError swallowed: the guard of C19.Svg.draw_needs_no_fuel '
+                        'is gone)')
             flagged = out.split(' | ')[1] if ' | ' in out else ''
             if flagged.strip():
                 return (f'after SVGImage.draw of image {meta["root"]} (references {meta["refs"]}, failing {meta["fails"]}) '
